@@ -1996,6 +1996,16 @@ class GroupBy:
 
         col_names = self._col_names_from_value_names(value_names)
 
+        # pandas would turn arrow / polars timestamps into naive numpy ones: keep type and zone
+        value_list = [
+            (
+                pd.Series(pd.arrays.ArrowExtensionArray(to_arrow(val)))
+                if isinstance(val, (pa.Array, pa.ChunkedArray, pl.Series))
+                and series_is_timestamp(val)
+                else val
+            )
+            for val in value_list
+        ]
         frame = pd.DataFrame(dict(zip(col_names, value_list)), copy=False)
         result = frame.iloc[ilocs]
         if len(ilocs) == len(frame):
